@@ -107,7 +107,7 @@ package csblob
 //@   requires r != nil && forall(k, 0, len(s.Directories), s.Directories[k] != nil && 1 <= s.Directories[k].HashFunc && s.Directories[k].HashFunc <= 19)
 //@   allocbound 0 16777216
 //@   ghost compared int = 0
-//@   on call crypto/hmac.Equal(a, b) ret (r): compared = compared + ite(r, 1, 0)
+//@   on call crypto/hmac.Equal(a, b) ret (r): compared = compared + ite(r && sameslice(a, computed) && (sameslice(b, expected) || sameslice(b, dir.CodeHashes[0])), 1, 0)
 //@   loop 0 sig "for i, expected := range dir.CodeHashes" invariant compared == rangeindex + 1 && dir != nil && len(page) >= 0 && pageSize >= 1 && len(page) <= pageSize && cap(page) == pageSize && allocated(page)
 //@   ensures @every_hash_slot_compared_with_the_page_read ret0 == nil && dir.Header.PageSizeLog2 != 0 ==> compared == len(dir.CodeHashes)
 //@   modifies sink r
@@ -196,3 +196,20 @@ package csblob
 //@   property C11
 //@   nopanic
 //@   requires r != nil
+//@
+//@ func checkCDHashes
+//@   property C02
+//@   standalone
+//@   ghost bad bool = false
+//@   on call crypto/hmac.Equal(a, b) ret (ok): bad = bad || !ok || !sameslice(a, hc) || !sameslice(b, cd.Digest)
+//@   ensures @every_code_directory_hash_attribute_is_compared_with_the_recomputed_hash ret0 == nil ==> !bad
+//@   loop 0 sig "for _, cd := range cdHashes" invariant !bad
+//@
+//@ func checkPlistHashes
+//@   property C02
+//@   standalone
+//@   ghost bad bool = false
+//@   on call crypto/hmac.Equal(a, b) ret (ok): bad = bad || !ok || !sameslice(a, expected) || !sameslice(b, actual)
+//@   ensures @every_hash_of_the_property_list_attribute_is_compared_with_the_recomputed_hash ret0 == nil ==> !bad
+//@   loop 0 sig "for _, dir := range dirs" invariant !bad
+//@   loop 1 sig "for i, expected := range parsed.CDHashes" invariant !bad
